@@ -282,3 +282,77 @@ func Mallocs() uint64 {
 	runtime.ReadMemStats(&m)
 	return m.Mallocs
 }
+
+// NScoreOps is the number of zero-allocation read methods ScoreOp can call for a version.
+func (w *Walker) NScoreOps() int {
+	if w.ver == spec.V40 {
+		return 2
+	}
+	return 5
+}
+
+// ScoreOpName names the i-th method of ScoreOp.
+func (w *Walker) ScoreOpName(i int) string {
+	if w.ver == spec.V40 {
+		return []string{"Score", "Nomenclature"}[i]
+	}
+	return []string{"BaseScore", "TemporalScore", "EnvironmentalScore", "Impact", "Exploitability"}[i]
+}
+
+// ScoreOp calls the i-th zero-allocation read method directly on the concrete object.
+func (w *Walker) ScoreOp(i int) {
+	switch w.ver {
+	case spec.V20:
+		switch i {
+		case 0:
+			sinkF = w.c20.BaseScore()
+		case 1:
+			sinkF = w.c20.TemporalScore()
+		case 2:
+			sinkF = w.c20.EnvironmentalScore()
+		case 3:
+			sinkF = w.c20.Impact()
+		default:
+			sinkF = w.c20.Exploitability()
+		}
+	case spec.V30:
+		switch i {
+		case 0:
+			sinkF = w.c30.BaseScore()
+		case 1:
+			sinkF = w.c30.TemporalScore()
+		case 2:
+			sinkF = w.c30.EnvironmentalScore()
+		case 3:
+			sinkF = w.c30.Impact()
+		default:
+			sinkF = w.c30.Exploitability()
+		}
+	case spec.V31:
+		switch i {
+		case 0:
+			sinkF = w.c31.BaseScore()
+		case 1:
+			sinkF = w.c31.TemporalScore()
+		case 2:
+			sinkF = w.c31.EnvironmentalScore()
+		case 3:
+			sinkF = w.c31.Impact()
+		default:
+			sinkF = w.c31.Exploitability()
+		}
+	default:
+		if i == 0 {
+			sinkF = w.c40.Score()
+		} else {
+			sinkStr = w.c40.Nomenclature()
+		}
+	}
+}
+
+// Scores calls every zero-allocation read method once.
+func (w *Walker) Scores() {
+	for i, n := 0, w.NScoreOps(); i < n; i++ {
+		w.ScoreOp(i)
+	}
+}
